@@ -149,6 +149,31 @@ INFO = {
     "C04-4": ("C04", "WebSocket: a Ping (or Text) frame ahead of the Close frame in one read, the peer keeping its TCP "
                      "connection open: the loop stops at the control message, the Close stays in the codec buffer: no "
                      "Disconnected, the endpoint stays registered", ["C04", "C01"]),
+    "C01-4": ("C01", "FramedTcp send uses try_lock and ignores the failure: a sender that finds the lock taken writes its "
+                     "frame unlocked (needs two threads sending on one endpoint with frames larger than the socket buffer)", ["C01", "C10"]),
+    "C02-4": ("C02", "a chunk that holds at least one complete frame and ends inside a multi-byte size prefix: the whole "
+                     "chunk (including the frames already delivered) is stored instead of the undecoded tail", ["C02", "C01", "C17"]),
+    "C05-4": ("C05", "the callback mutex replaced by a busy flag + condvar whose wait is not re-checked after wake-up: the "
+                     "releasing thread re-takes the callback for its next queued event before the waiter runs, the waiter "
+                     "then enters as well", ["C05"]),
+    "C06-4": ("C06", "Cancel removes every pending timer with the same Instant (retain on the instant alone): a timer from "
+                     "another thread that fell on the same nanosecond as a cancelled one is lost", ["C06", "C08"]),
+    "C07-4": ("C07", "cancel_timer() of a timer whose deadline has passed but that has not been delivered yet sends nothing: "
+                     "the cancelled event is still returned, ahead of plain events", ["C07", "C08"]),
+    "C08-4": ("C08", "pending timer commands are not folded while a known timer is due: a cancel issued before the deadline "
+                     "while the receiver was idle is not applied at the next receive after the deadline", ["C08", "C07"]),
+    "C09-4": ("C09", "for_each_async/enqueue: the is_running() test under the callback lock of the live network loop is "
+                     "dropped: the remaining events of a polled batch, or an event held while waiting for the lock, are "
+                     "delivered after stop()", ["C09"]),
+    "C11-4": ("C11", "Tcp with keepalive configured: pending() answers Incomplete on a read event; bytes already waiting when "
+                     "the connection is first processed are not read until more arrive", ["C11", "C03"]),
+    "C14-4": ("C14", "FramedTcp with a keepalive configuration the OS rejects: the stream's descriptor is closed while the "
+                     "endpoint stays registered as ready; the next socket reuses the number and receives what is sent to the "
+                     "old endpoint", ["C14", "C18"]),
+    "C16-4": ("C16", "receive_timeout returns ready_event() straight from the expiry branch: a cancel that lands between the "
+                     "expiry wake-up and the fold makes it return None long before the timeout", ["C16", "C08"]),
+    "C19-4": ("C19", "the string is resolved with to_socket_addrs(): a host:port text the local resolver knows "
+                     "(localhost:80) is classified as a socket address", ["C19"]),
     "C19-1": ("C19", "SocketAddrV6 with non-zero flowinfo/scope_id converted to RemoteAddr: the fields are dropped", ["C19"]),
 }
 
